@@ -24,7 +24,8 @@ def one(spec):
             if p.returncode != 0:
                 line = next((l.strip()[:260] for l in p.stdout.splitlines() if l.strip().startswith("finding:") or l.startswith("ANALYSIS-ERROR")), "")
                 out.append(f"{c}={p.returncode} {line}")
-        title = open(f"{BASE}/{ID}/_out/change{K}/notes.md").readline().strip()[:100]
+        nf = f"{BASE}/{ID}/_out/change{K}/notes.md"
+        title = open(nf).readline().strip()[:100] if os.path.exists(nf) else "(no notes yet)"
         return f"{ID}:{K} [{title}] -> " + ("; ".join(out) or "MISSED")
     finally:
         shutil.rmtree(tmp, ignore_errors=True)
